@@ -104,6 +104,9 @@ type Buffer struct {
 	scratchFlags bufferScratchFlags // Have space-fallback, etc.
 
 	haveOutput bool
+	// havePositions is true once clearPositions has been called: only then is
+	// Pos kept in sync with Info (same length, meaningful content)
+	havePositions bool
 
 	planCache map[Face][]*shapePlan
 }
@@ -228,6 +231,7 @@ func (b *Buffer) Clear() {
 	b.scratchFlags = 0
 
 	b.haveOutput = false
+	b.havePositions = false
 
 	b.idx = 0
 	b.Info = b.Info[:0]
@@ -501,7 +505,7 @@ done:
 
 func (b *Buffer) deleteGlyphsInplace(filter func(*GlyphInfo) bool) {
 	// Merge clusters and delete filtered glyphs.
-	// NOTE! We can't use out-buffer as we have positioning data.
+	// NOTE! We can't use out-buffer as we may have positioning data.
 	var (
 		j    int
 		info = b.Info
@@ -540,12 +544,18 @@ func (b *Buffer) deleteGlyphsInplace(filter func(*GlyphInfo) bool) {
 
 		if j != i {
 			info[j] = info[i]
-			pos[j] = pos[i]
+			if b.havePositions {
+				pos[j] = pos[i]
+			}
 		}
 		j++
 	}
 	b.Info = b.Info[:j]
-	b.Pos = b.Pos[:j]
+	if b.havePositions {
+		// before positioning (AAT deleted glyphs), Pos is not in sync with Info
+		// and is resized later by clearPositions
+		b.Pos = b.Pos[:j]
+	}
 }
 
 // unsafeToBreak adds the flag `GlyphFlagUnsafeToBreak`
@@ -632,7 +642,7 @@ func (b *Buffer) infosSetGlyphFlags(infos []GlyphInfo, start, end, cluster int, 
 // same length as `Info` (without zeroing its values)
 func (b *Buffer) clearPositions() {
 	b.haveOutput = false
-	// b.have_positions = true
+	b.havePositions = true
 
 	b.outInfo = b.outInfo[:0]
 
@@ -647,7 +657,7 @@ func (b *Buffer) clearPositions() {
 // truncate `outInfo` and set `haveOutput`
 func (b *Buffer) removeOutput(setOutput bool) {
 	b.haveOutput = setOutput
-	// b.have_positions = false
+	b.havePositions = false
 
 	b.outInfo = b.outInfo[:0]
 }
@@ -666,8 +676,17 @@ func (b *Buffer) reverseRange(start, end int) {
 		return
 	}
 	info := b.Info[start:end]
-	pos := b.Pos[start:end]
 	L := len(info)
+	if !b.havePositions {
+		// before positioning, Pos is not kept in sync with Info (it may be shorter after
+		// a dotted circle or morx insertion) and holds nothing to reverse
+		for i := L/2 - 1; i >= 0; i-- {
+			opp := L - 1 - i
+			info[i], info[opp] = info[opp], info[i]
+		}
+		return
+	}
+	pos := b.Pos[start:end]
 	_ = pos[L-1] // BCE
 	for i := L/2 - 1; i >= 0; i-- {
 		opp := L - 1 - i
